@@ -190,7 +190,7 @@ theorem seekFwd_spec (c : SstCfg) (hc : c.GoodButSeek) (key : Bytes) (blocks : L
     (hne : ∀ b ∈ blocks, b ≠ []) (hs : SortedE blocks.flatten) :
     seekFwd c key blocks = blocks.flatten.dropWhile (fun e => klt e.1 key) ∨
     (c.seekFallsThrough = false ∧ seekFwd c key blocks = [] ∧ ∀ e ∈ blocks.flatten, e.1 ≠ key) := by
-  obtain ⟨so, nb, ts, bf, br, sv, bp, vc, cg, ve⟩ := c
+  obtain ⟨so, nb, ts, bf, br, sv, bp, vc, cg, ve, sr, nu⟩ := c
   simp only [SstCfg.GoodButSeek] at hc
   obtain ⟨rfl, rfl, rfl, rfl, rfl, rfl⟩ := hc
   induction blocks with
@@ -273,6 +273,96 @@ theorem seekFwd_spec (c : SstCfg) (hc : c.GoodButSeek) (key : Bytes) (blocks : L
             rw [heq, kst.irrefl] at this
             cases this
           · exact h3 e he
+
+/-! ### reverse seek -/
+
+theorem takeWhile_all' {α : Type} (p : α → Bool) (l tail : List α) (h : ∀ x ∈ l, p x = true) :
+    (l ++ tail).takeWhile p = l ++ tail.takeWhile p := by
+  induction l with
+  | nil => rfl
+  | cons x xs ih =>
+    simp only [List.cons_append, List.takeWhile_cons, h x (by simp), if_true]
+    rw [ih (fun y hy => h y (by simp [hy]))]
+
+theorem takeWhile_stop {α : Type} (p : α → Bool) (l tail : List α) (h : tail.takeWhile p = []) :
+    (l ++ tail).takeWhile p = l.takeWhile p := by
+  induction l with
+  | nil => simpa using h
+  | cons x xs ih =>
+    simp only [List.cons_append, List.takeWhile_cons]
+    cases p x <;> simp [ih]
+
+/-- Descending seek inside the table (`base key of the first block ≤ target`): the entries `≤`
+the target, last first, followed by what the earlier blocks contributed. -/
+theorem seekRevGo_spec (c : SstCfg) (hc : c.GoodButSeek) (key : Bytes) :
+    ∀ (bs : List Block) (acc : List SEntry), bs ≠ [] → (∀ b ∈ bs, b ≠ []) → SortedE bs.flatten →
+      klt key (baseKey (bs.headD [])) = false →
+      seekRevGo c key acc bs = (bs.flatten.takeWhile (fun e => !klt key e.1)).reverse ++ acc := by
+  obtain ⟨so, nb, ts, bf, br, sv, bp, vc, cg, ve, sr, nu⟩ := c
+  simp only [SstCfg.GoodButSeek] at hc
+  obtain ⟨rfl, rfl, rfl, rfl, rfl, rfl⟩ := hc
+  intro bs
+  induction bs with
+  | nil => intro acc h; exact absurd rfl h
+  | cons b rest ih =>
+    intro acc _ hne hs hbase
+    obtain ⟨e1, t1, hb⟩ := List.exists_cons_of_ne_nil (hne b (by simp))
+    have hhead : (!klt key e1.1) = true := by
+      rw [hb] at hbase; simpa [baseKey] using hbase
+    have htw_ne : (b.takeWhile (fun e => !klt key e.1)).isEmpty = false := by
+      rw [hb]; simp [List.takeWhile_cons, hhead]
+    cases rest with
+    | nil =>
+      simp only [seekRevGo, inBlockRev, entOp, gt_eval, htw_ne, Bool.false_eq_true, if_false,
+        List.flatten_cons, List.flatten_nil, List.append_nil]
+    | cons b2 rest =>
+      have hb2 : b2 ≠ [] := hne b2 (by simp)
+      obtain ⟨e2, t2, hb2e⟩ := List.exists_cons_of_ne_nil hb2
+      have hbk : baseKey b2 = e2.1 := by rw [hb2e]; rfl
+      have hfl : (b :: b2 :: rest).flatten = b ++ (b2 :: rest).flatten := by simp
+      have htl : (b2 :: rest).flatten = e2 :: (t2 ++ rest.flatten) := by rw [hb2e]; simp
+      have hs' : SortedE (b ++ (b2 :: rest).flatten) := by rw [← hfl]; exact hs
+      unfold SortedE Sorted at hs'
+      rw [List.pairwise_append] at hs'
+      obtain ⟨_, hst, hcross⟩ := hs'
+      rw [seekRevGo, hfl]
+      simp only [gt_eval, hbk]
+      cases hcond : klt key e2.1 with
+      | true =>
+        simp only [if_true, inBlockRev, entOp, gt_eval, htw_ne, Bool.false_eq_true, if_false]
+        have hstop : ((b2 :: rest).flatten).takeWhile (fun e => !klt key e.1) = [] := by
+          rw [htl]; simp [List.takeWhile_cons, hcond]
+        rw [takeWhile_stop _ _ _ hstop]
+      | false =>
+        simp only [Bool.false_eq_true, if_false]
+        have hall : ∀ x ∈ b, (!klt key x.1) = true := by
+          intro x hx
+          have h1 : klt x.1 e2.1 = true := hcross x hx e2 (by rw [htl]; simp)
+          cases h2 : klt key x.1 with
+          | false => rfl
+          | true => have := kst.trans h2 h1; rw [hcond] at this; cases this
+        rw [takeWhile_all' _ _ _ hall, List.reverse_append, List.append_assoc]
+        exact ih (b.reverse ++ acc) (by simp) (fun b' hb' => hne b' (by simp [hb'])) hst
+          (by simpa [hb2e, baseKey] using hcond)
+
+theorem seekRev_spec (c : SstCfg) (hc : c.GoodButSeek) (key : Bytes) (blocks : List Block)
+    (hne : ∀ b ∈ blocks, b ≠ []) (hs : SortedE blocks.flatten) :
+    seekRev c key blocks = (blocks.flatten.takeWhile (fun e => !klt key e.1)).reverse := by
+  cases blocks with
+  | nil => simp [seekRev]
+  | cons b rest =>
+    obtain ⟨e1, t1, hb⟩ := List.exists_cons_of_ne_nil (hne b (by simp))
+    have htop : c.tblSeekOp = .gt := hc.2.1
+    simp only [seekRev, htop, gt_eval]
+    cases hcond : klt key (baseKey b) with
+    | true =>
+      simp only [if_true]
+      have : klt key e1.1 = true := by rw [hb] at hcond; simpa [baseKey] using hcond
+      rw [hb]; simp [List.takeWhile_cons, this]
+    | false =>
+      simp only [Bool.false_eq_true, if_false]
+      have := seekRevGo_spec c hc key (b :: rest) [] (by simp) hne hs (by simpa using hcond)
+      simpa using this
 
 /-- the first entry `≥` a stored key is that entry -/
 theorem dropWhile_mem_head {l : List SEntry} (hs : SortedE l) {e : SEntry} (he : e ∈ l) :
